@@ -393,6 +393,26 @@ def case_slice_ll(col, p):
         now = (np.asarray(model.data), np.ma.getmaskarray(model), np.asarray(data.data), np.ma.getmaskarray(data))
         if not all(np.array_equal(x, y) for x, y in zip(snap, now)):
             col.violation('C09:%s:inputs_modified' % fname, p, '')
+    # data with entries the user masked on top of the folding mask: the per-bin likelihood is masked on the union, and ll sums the rest
+    from math import lgamma, log
+    fm = model.fold()
+    free = [idx for idx in np.ndindex(*shape) if not np.ma.getmaskarray(data)[idx]]
+    for extra in free[:3]:
+        d2 = data.copy()
+        d2.mask[extra] = True
+        per = dadi.Inference.ll_per_bin(model, d2)
+        col.tick(transitions=2)
+        exm = np.ma.getmaskarray(fm) | np.ma.getmaskarray(d2)
+        if not np.array_equal(np.ma.getmaskarray(per), exm):
+            col.violation('C09:ll_per_bin:autofold:mask', dict(p, extra_masked=extra), {'masked': int(np.ma.getmaskarray(per).sum()), 'expected': int(exm.sum())})
+        tot = 0.0
+        for idx in np.ndindex(*shape):
+            if not exm[idx]:
+                m_, d_ = float(fm.data[idx]), float(d2.data[idx])
+                tot += -m_ + d_ * log(m_) - lgamma(d_ + 1.0)
+        got = float(dadi.Inference.ll(model, d2))
+        if not abs(got - tot) <= 1e-11 * max(1.0, abs(tot)):
+            col.violation('C09:ll:autofold:value', dict(p, extra_masked=extra), {'got': got, 'exact': tot})
     col.tick(states=14)
     col.distinct('nontrivial', ('slice_ll', ns))
 
